@@ -51,7 +51,7 @@ def cases(tier, seed):
     # other shapes and layered members: a size that makes no sense (negative semi-axis, diameter, height) inside its prior's support is an
     # invalid scatterer -> log-prior -inf and no hologram; an overlap constraint on layered spheres is a fraction of the OUTER diameter
     for i in range(12 if tier == "quick" else 300):
-        out.append({"id": "shape-%d" % i, "kind": "shapes", "what": ["spheroid", "cylinder_d", "cylinder_h", "layered_overlap", "layered_overlap_mixed", "spheroid_z"][i % 6],
+        out.append({"id": "shape-%d" % i, "kind": "shapes", "what": ["spheroid", "cylinder_d", "cylinder_h", "layered_overlap", "layered_overlap_mixed", "spheroid_z", "channel_radius", "channel_thickness"][i % 8],
                     "vkind": "shape", "noise_src": "model", "optics_src": "model", "model": "exact", "data_form": "image", "two": False, "seed": [seed, "shape", i]})
     return out
 
@@ -116,6 +116,32 @@ def _run_shapes(case):
             else:
                 flags["overlap_within_fraction_of_outer_diameter_allowed@" + tag] = bool(lp == want and np.isfinite(post))
         return {"resid": resid, "flags": flags, "nparams": 1, "post": None}
+    if what in ("channel_radius", "channel_thickness"):
+        # sizes given per illumination channel: a negative value in ONE channel is an invalid scatterer like any other
+        from holopy.core.prior import Gaussian
+        from holopy.scattering.scatterer import LayeredSphere
+        labs = ["red", "green"]
+        pri = {l: Gaussian(0.5 + 0.01 * k_ + float(rng.uniform(0, 0.01)), 0.4) for k_, l in enumerate(labs)}
+        if what == "channel_radius":
+            sc = Sphere(n=1.5, r=dict(pri), center=[1.0, 1.0, 7.0])
+        else:
+            sc = LayeredSphere(n=[1.5, 1.45], t={l: [0.3, pri[l]] for l in labs}, center=[1.0, 1.0, 7.0])
+        detc = detector_grid((4, 5), 0.3, extra_dims={"illumination": labs})
+        kwc = dict(noise_sd=0.1, medium_index=1.33, illum_wavelen={"red": 0.66, "green": 0.52}, illum_polarization=(1, 0))
+        model = ExactModel(sc, calc_func=counter, theory=Mie, **kwc)
+        data = update_metadata(calc_holo(detc, Sphere(n=1.5, r=0.5, center=(1, 1, 7)), 1.33, {"red": 0.66, "green": 0.52}, (1, 0)), noise_sd=0.1)
+        plist = list(model._parameters)
+        good_v = [0.45 if p is pri["red"] or p == pri["red"] else 0.55 for p in plist]
+        bad_v = [0.45 if p == pri["red"] else -0.2 for p in plist]
+        n0_ = counter.n
+        lp_bad = model.lnprior(bad_v)
+        post_bad = model.lnposterior(bad_v, data)
+        flags["negative_size_inside_support_has_lnprior_minus_inf"] = bool(lp_bad == -np.inf and post_bad == -np.inf)
+        flags["no_hologram_for_invalid_scatterer"] = bool(counter.n == n0_)
+        lp_good = model.lnprior(good_v)
+        resid["lnprior"] = fnum(abs(lp_good - sum(p.lnprob(v) for p, v in zip(plist, good_v))))
+        flags["valid_size_is_evaluated"] = bool(np.isfinite(model.lnposterior(good_v, data)) and counter.n == n0_ + 1)
+        return {"resid": resid, "flags": flags, "nparams": len(plist), "post": None}
     lo = -float(rng.uniform(0.2, 1.0))
     pr = Uniform(lo, 1.0)
     good = float(rng.uniform(0.25, 0.6))
